@@ -73,6 +73,10 @@ func (fc *FCtx) evalCall(e *ast.CallExpr, st *State) []Val {
 			if isFmtArgs(name) {
 				break
 			}
+			if _, isLit := unparen(a).(*ast.FuncLit); isLit {
+				args = append(args, Val{T: "@funclit", S: fc.U.opaque("Func")})
+				continue
+			}
 			args = append(args, fc.eval(a, st))
 		}
 		return intr(fc, st, e, recv, args)
